@@ -38,6 +38,9 @@ type MemStore struct {
 	NoCRC bool
 	// EOFWithData makes readers return io.EOF together with the last bytes (both shapes are legal io.Reader behaviour)
 	EOFWithData bool
+	// DeleteMissingOK makes Delete of a key that does not exist succeed, as S3 and the local file system store do
+	// (GCS reports "not found")
+	DeleteMissingOK bool
 }
 
 // Obj is one stored object.
@@ -229,6 +232,9 @@ func (m *MemStore) Delete(_ context.Context, key string) error {
 	m.mu.Lock()
 	defer m.mu.Unlock()
 	if _, ok := m.objs[key]; !ok {
+		if m.DeleteMissingOK {
+			return nil
+		}
 		return NotExists(key)
 	}
 	delete(m.objs, key)
@@ -325,7 +331,7 @@ func (m *MemStore) Clone() *MemStore {
 	m.mu.Lock()
 	defer m.mu.Unlock()
 	c := NewMemStore(m.Name)
-	c.ReadChunks, c.NoCRC, c.NoJournal, c.EOFWithData = m.ReadChunks, m.NoCRC, m.NoJournal, m.EOFWithData
+	c.ReadChunks, c.NoCRC, c.NoJournal, c.EOFWithData, c.DeleteMissingOK = m.ReadChunks, m.NoCRC, m.NoJournal, m.EOFWithData, m.DeleteMissingOK
 	for k, o := range m.objs {
 		c.objs[k] = &Obj{Data: append([]byte(nil), o.Data...), Created: o.Created, Updated: o.Updated}
 	}
